@@ -194,7 +194,13 @@ def loops_in(toks, lo, hi):
 
 # ---------------------------------------------------------------- generic rules
 
-def rule_R1(text, log):
+def rule_R1T(text, log, taint=()):
+    """R1 with information-flow labels: a format!(..) whose arguments mention one of the `taint`
+    identifiers (other than as `NAME.type_name()`) becomes verif_msg_tainted(), every other one verif_msg()."""
+    return rule_R1(text, log, taint=set(taint))
+
+
+def rule_R1(text, log, taint=None):
     """format!(..)/eprintln!/println! -> opaque stubs (message text dropped)."""
     toks = lex(text)
     edits = []
@@ -206,8 +212,17 @@ def rule_R1(text, log):
                 e = match_close(toks, k + 2)
                 if e + 4 < len(toks) and [x.text for x in toks[e + 1:e + 5]] == ['.', 'into', '(', ')']:
                     e += 4
-                edits.append(Edit(t.start, toks[e].end, 'verif_msg()', 'R1', ''))
-                log.append(('R1', text[t.start:toks[e].end], 'verif_msg()'))
+                stub = 'verif_msg()' if taint is None else 'verif_msg_clean()'
+                if taint:
+                    inner = toks[k + 3:e]
+                    for q, tt in enumerate(inner):
+                        if tt.kind == 'ident' and tt.text in taint:
+                            nxt = [x.text for x in inner[q + 1:q + 5]]
+                            if nxt[:4] == ['.', 'type_name', '(', ')']:
+                                continue
+                            stub = 'verif_msg_tainted()'
+                edits.append(Edit(t.start, toks[e].end, stub, 'R1', ''))
+                log.append(('R1', text[t.start:toks[e].end], stub))
                 k = e + 1
                 continue
             if t.text in ('eprintln', 'println', 'eprint', 'print'):
@@ -398,7 +413,7 @@ def rule_RV(text, log):
     return apply_edits(text, edits)
 
 
-RULES = {'RV': rule_RV, 'R0': rule_R0, 'R1': rule_R1, 'R3': rule_R3, 'R4': rule_R4}
+RULES = {'R1T': rule_R1T, 'RV': rule_RV, 'R0': rule_R0, 'R1': rule_R1, 'R3': rule_R3, 'R4': rule_R4}
 
 
 def expand_make_fn(text):
@@ -577,6 +592,15 @@ def process_extract(header, directives, ctx):
                 if payload:
                     edits.append(Edit(toks[hb].start, toks[hb].start, '\n' + payload + '\n', 'loop', ''))
                     rec['inserts'] += 1
+            elif d[0] == 'after_loop':
+                n, payload = d[1]
+                lps = loops_in(toks, bo + 1, bc)
+                if n < 1 or n > len(lps):
+                    raise Undecided('%s: loop %d not found (%d loops)' % (name, n, len(lps)))
+                kw, hb = lps[n - 1]
+                e = match_close(toks, hb)
+                edits.append(Edit(toks[e].end, toks[e].end, '\n' + payload + '\n', 'ghost', ''))
+                rec['inserts'] += 1
             elif d[0] in ('before', 'after'):
                 anchor, payload, nth = d[1]
                 pat = [t.text for t in lex(anchor)]
@@ -605,7 +629,7 @@ def process_extract(header, directives, ctx):
         text = apply_edits(text, edits)
     else:
         for d in directives:
-            if d[0] in ('ret', 'sig', 'loop', 'before', 'after', 'body_start', 'opaque_body'):
+            if d[0] in ('ret', 'sig', 'loop', 'before', 'after', 'body_start', 'opaque_body', 'after_loop'):
                 raise Undecided('directive %s on non-fn item %s' % (d[0], ispec))
     if container is not None and kind == 'fn':
         hdr = None
@@ -689,7 +713,7 @@ def _assemble(unit_path, apply_mutant, vacuity, hooks, mutant_post):
                     raise Undecided('unterminated extract block: ' + rest)
                 s2 = lines[i].strip()
                 if not s2.startswith('//@'):
-                    if s2 == '':
+                    if s2 == '' or s2.startswith('//'):
                         i += 1
                         continue
                     raise Undecided('stray line in extract block: ' + s2)
@@ -716,6 +740,8 @@ def _assemble(unit_path, apply_mutant, vacuity, hooks, mutant_post):
                 elif c2 == 'loop':
                     mm = re.match(r'(\d+)(?:\s+iter\s+(\w+))?\s*(.*)$', r2)
                     directives.append(('loop', (int(mm.group(1)), heredoc if heredoc is not None else (mm.group(3) or None), mm.group(2))))
+                elif c2 == 'after_loop':
+                    directives.append(('after_loop', (int(r2.split()[0]), heredoc if heredoc is not None else '')))
                 elif c2 in ('before', 'after'):
                     mm = re.match(r'("(?:[^"\\]|\\.)*")(?:\s+nth\s+(\d+))?\s*(.*)$', r2)
                     directives.append((c2, (unquote(mm.group(1)), heredoc if heredoc is not None else mm.group(3), int(mm.group(2)) if mm.group(2) else None)))
